@@ -231,7 +231,7 @@ PROPS = {
             {
                 "name": "c02ks",
                 "run_vo": "Model/RunKeyNames.vo",
-                "n_quick": 4,
+                "n_quick": 5,
                 "n_thorough": 60,
                 "model": True
             },
